@@ -21,7 +21,7 @@ RULE = ('trees: leaves x { !, &&, || with 2 or 3 operands } to depth 2 (binary a
         'after !, after ( and before ) ); simple-expression contexts (every/any line, num-lines, -transformed-by, contents, line-num, -selection, '
         '-with-pruned, every/any file, num-files, dir-contents, replace -at, filter) followed by an outer infix operator; malformed family = every '
         'single-token deletion, duplication and adjacent transposition of the renderings of the depth-1 trees, plus dangling / doubled operators of every mix of && and || '
-        '(bare, parenthesised, unbalanced), each also laid out with a line break before every infix operator; '
+        '(bare, parenthesised, unbalanced), each also laid out with a line break before every infix operator; half operators (`&`, `|`); superfluous text after a complete expression in the hosting assertion; '
         'non-trivial = tree with at least one operator (value depends on structure) ; renderings of one tree are counted once')
 ASSUMPTIONS = [
     'a line break *before* an infix operator is must-accept only inside parentheses and for a chain of one operator kind (as the project\'s own parser tests '
@@ -351,6 +351,7 @@ def cases(tier):
         for i in range(0, nd1, 12):
             yield ('malformed', host, i, min(i + 12, nd1))
         yield ('malformed', host, -1, -1)  # dangling / doubled operators of mixed kinds
+        yield ('tail', host)
         yield ('nl-before-op', host)
     yield ('transformer', 0)
     for i in range(len(CONTEXTS)):
@@ -473,6 +474,8 @@ def run(case) -> Result:
         return _redundant(res, case[1], case)
     if k == 'malformed':
         return _malformed(res, case)
+    if k in ('tail', 'tail-one'):
+        return _tail(res, case[1], case)
     if k in ('mal-one', 'mal-nl'):
         return _mal_one(res, case[1], list(case[2]))
     if k == 'nl-before-op':
@@ -607,6 +610,8 @@ def _malformed(res, case):
                 muts.append(toks[:i] + [toks[i], toks[i]] + toks[i + 1:])
                 if i + 1 < len(toks):
                     muts.append(toks[:i] + [toks[i + 1], toks[i]] + toks[i + 2:])
+                if toks[i] in ('&&', '||'):
+                    muts.append(toks[:i] + [toks[i][0]] + toks[i + 1:])  # half an operator: `&`, `|`
             for m in muts:
                 key = ' '.join(m)
                 if key in seen or not m:
@@ -622,6 +627,36 @@ def _uses_run(t, host):
     if t[0] == 'not':
         return _uses_run(t[1], host)
     return any(_uses_run(x, host) for x in t[1])
+
+
+def _tail(res, host, case):
+    """A complete expression followed by more text on the line where it ends, written directly in the assertion that hosts it (not through a
+    definition): the whole is not an expression of the grammar - a syntax error, never the value of the well-formed prefix."""
+    w = world.get()
+    seam = procseam.SEAM
+    l0, l1, l2 = MAL_LEAVES[host]
+    exprs = [l0, l0 + ['&&'] + l1, ['('] + l0 + [')'], ['!'] + l1, l0 + ['||'] + l1 + ['&&'] + l2, ['('] + l0 + ['||'] + l1 + [')']]
+    tails = [[')'], l1, ['|'] + l1, ['&'] + l1, ['constant', 'true'], ['=='], ['(', ')'], ['x']]
+    for e in exprs:
+        for t in tails:
+            for neg in (False, True):
+                src = ' '.join(e + t)
+                _setup_world(w, seam)
+                line = ASSERT[host] % src
+                if neg and host in ('file', 'files', 'text', 'line'):
+                    line = line.replace(' : ', ' : ! ( ', 1) if False else line  # (polarity is part of the expression: not varied here)
+                text = '\n'.join(HEAD + [line]) + '\n'
+                o = cli.run_case(text)
+                res.n += 1
+                res.nontrivial += 1
+                res.outcomes[(host, 'tail', o.ident)] += 1
+                if o.rc != 65 or o.ident != 'SYNTAX_ERROR' or o.exc:
+                    res.violation(('tail-one', host, tuple(e), tuple(t)), [
+                        '%s host: `%s`: a complete expression followed by `%s` on the same line is a syntax error, but the case gave rc=%s %s'
+                        % (host, line, ' '.join(t), o.rc, o.out.strip()), ' / '.join(cli.stderr_lines(o.err)[:4])[:300]])
+                if not neg:
+                    break
+    return res
 
 
 def _mal_one(res, host, toks):
